@@ -104,6 +104,10 @@ fn run_manager_case(out: &mut Out, id0: u64, start0: u64, duration: u64, t0: u64
                         if !reg && d != 0 { out.monitor_fail("C20", "epoch manager: an unregistered contract was notified", replay.clone()); }
                     }
                 } else {
+                    let hook_rejects = match e { MEv::Create { bad, .. } => bad.iter().any(|b| registered.contains(b)), _ => false };
+                    if !early && !hook_rejects && before.0 != u64::MAX && (before.1 as u128 + duration as u128) <= u64::MAX as u128 {
+                        out.monitor_fail("C20", "epoch manager: CreateEpoch was rejected although the current epoch's duration has elapsed", replay.clone());
+                    }
                     if after != before { out.monitor_fail("C20", "epoch manager: a rejected CreateEpoch changed the epoch", replay.clone()); }
                     if (0..3).any(|i| logs_after[i] != logs_before[i]) { out.monitor_fail("C20", "epoch manager: a rejected CreateEpoch notified a hook", replay.clone()); }
                 }
@@ -219,6 +223,9 @@ fn run_distributor_case(out: &mut Out, duration: u64, genesis: u64, grace: u64, 
             if after.1 > *t { out.monitor_fail("C20", "fee distributor: the new epoch starts in the future", replay.clone()); }
         } else {
             rejected += 1;
+            if !early && *collector_ok && !(first && *t < genesis) {
+                out.monitor_fail("C20", "fee distributor: NewEpoch was rejected although the current epoch's duration has elapsed (and genesis has passed)", replay.clone());
+            }
             if after != before { out.monitor_fail("C20", "fee distributor: a rejected NewEpoch changed the current epoch", replay.clone()); }
         }
         terms.push(format!("({}, {})", t, coqbool(*collector_ok)));
